@@ -21,7 +21,7 @@ func init() {
 			"(X-mut) effect analysis proves non-mutating forms cannot write a big.Int reachable from an operand; (O) every growing arithmetic method asserts the bit-length bound on the value it returns.",
 		NotCovered:  []string{"exactness of math/big itself", "value-level round-trip of text/JSON/binary encodings beyond 'same codec both ways'", "LegacyDec internals (SDK)"},
 		Assumptions: []string{"math/big method semantics (Quo/QuoRem truncate toward zero, remainder has the dividend's sign)", "the partition's branch predicates are the only value-dependent control flow in the helpers (anything else is reported undecided)"},
-		MinObl:      270,
+		MinObl:      275,
 		Run:         runC12,
 	})
 }
